@@ -24,7 +24,7 @@ PLAN = {
         'inv': ['ConnAgree', 'C03_Recipients', 'C03_RoomsListing',
                 'C03_NoGhostsOfTheDeparted'],
         'quick': ['rooms_quick'],
-        'thorough': ['rooms_quick', 'rooms'],
+        'thorough': ['rooms_quick', 'rooms3', 'rooms'],
         # (config, histories quick, histories thorough, max length)
         'walks': [('rooms_big', 60, 1500, 60)],
         'walk_inv': ['ConnAgree', 'C03_RoomsListing',
